@@ -71,6 +71,10 @@ ASSUMPTIONS = [
     "system_tor()/Tor.get_config() before the constructor's checks run are counted, not judged",
     "option values of the wrong type handed to the constructor (e.g. public_port='80') are outside what __init__ declares; not generated. "
     "version=4 through the constructor is refused only when the service is created: judged as a failing run (no leak), not as a refusal before start",
+    "on the port of every successful listen() one IListeningPort history is run (stop | stop,stop | stop,start,stop | stop,start,stop,stop | "
+    "stop,stop,start,stop,start,stop): after every stopListening() no listener of the endpoint may be open; what startListening() re-opens is "
+    "only required to be loopback - whether it is the port number Tor forwards to is counted, not judged (on the fake reactor a restarted port keeps "
+    "its number; a real Twisted port bound with port 0 would get a new one); the value stopListening() returns is not judged",
     "for stealth authentication with more than one client there is no single hostname: onion_uri is not judged there (onion_port is)",
     "Twisted plugin discovery (twisted/plugins/txtorcon_endpoint_parser.py + dropin.cache) is replaced by handing serverFromString the "
     "parser object that plugin file creates (txtorcon.TCPHiddenServiceEndpointParser()); the string parsing itself is Twisted's",
@@ -102,7 +106,7 @@ ANCHORS = [
 ]
 FLOORS = {
     "quick": {"evaluations": 1400, "listen_calls": 1400, "listeners_checked_loopback": 1200, "mappings_compared": 800,
-              "not_fired_checks": 4500, "not_fired_nor_failed_on_foreign_events_checks": 500, "foreign_window_runs": 120, "gethost_compared": 180, "stop_checked": 180, "leak_checks_after_failure": 1200,
+              "not_fired_checks": 4500, "not_fired_nor_failed_on_foreign_events_checks": 500, "foreign_window_runs": 120, "gethost_compared": 180, "stop_checked": 180, "stops_after_restart_checked": 90, "leak_checks_after_failure": 1200,
               "failure_errors_compared": 1000, "refusals_before_start_checked": 10, "fault:close-on-line": 300,
               "fault:close-after-reply": 300, "fault:reject": 120, "fault:uploads-failed": 180, "fault:bind": 90, "fault:config": 40,
               "route:ctor": 200, "route:tor": 140, "route:str-system": 80, "route:str-global": 45,
@@ -111,7 +115,7 @@ FLOORS = {
               "reach:txtorcon.endpoints:TCPHiddenServiceEndpointParser.parseStreamServer": 250,
               "reach:txtorcon.controller:connect": 150},
     "thorough": {"evaluations": 4500, "listen_calls": 4500, "listeners_checked_loopback": 3500, "mappings_compared": 2500,
-                 "not_fired_checks": 14000, "not_fired_nor_failed_on_foreign_events_checks": 900, "foreign_window_runs": 200, "gethost_compared": 500, "stop_checked": 500, "leak_checks_after_failure": 3500,
+                 "not_fired_checks": 14000, "not_fired_nor_failed_on_foreign_events_checks": 900, "foreign_window_runs": 200, "gethost_compared": 500, "stop_checked": 500, "stops_after_restart_checked": 250, "leak_checks_after_failure": 3500,
                  "failure_errors_compared": 3000, "refusals_before_start_checked": 10, "fault:close-on-line": 1200,
                  "fault:close-after-reply": 1200, "fault:reject": 300, "fault:uploads-failed": 450, "fault:bind": 250, "fault:config": 100,
                  "random_cases": 4000,
@@ -129,6 +133,9 @@ AUTH = {"none": None, "b1": ("basic", ["alice"]), "b2": ("basic", ["alice", "bob
 PUBLIC_PORTS = (80, 443, 1, 65535, 8080, 9735)
 FIRST_PORTS = (41000, 1025, 65001, 50000)
 MARK = "C17-injected"
+# IListeningPort histories exercised on the port a successful listen() returned
+PORT_HISTORIES = (("stop",), ("stop", "stop"), ("stop", "start", "stop"), ("stop", "start", "stop", "stop"),
+                  ("stop", "stop", "start", "stop", "start", "stop"))
 
 
 class InjectedConfigError(Exception):
@@ -185,6 +192,7 @@ def decorate(cell, i):
     c["first_port"] = FIRST_PORTS[i % len(FIRST_PORTS)]
     c["ndirs"] = 1 + i % 3
     c["noise"] = bool(i % 2)
+    c["history"] = i % len(PORT_HISTORIES)
     return c
 
 
@@ -324,7 +332,7 @@ class Obs(object):
         self.lines0 = 0
         self.lines_at_fire = None
         self.host = None
-        self.stop_result = None
+        self.port_history = None
         self.open_after_stop = None
         self.open_at_end = None
         self.log_errors = []
@@ -905,13 +913,29 @@ def execute(case):
                 obs.host = (getattr(h, "onion_uri", None), getattr(h, "onion_port", None))
             except Exception as e:      # noqa
                 obs.host = ("<getHost raised %s>" % type(e).__name__, None)
-            try:
-                obs.stop_result = port.stopListening()
-                obs.stop_raised = None
-            except Exception as e:      # noqa
-                obs.stop_raised = e
-            w.step("stopped")
-            obs.open_after_stop = w.open_ports()
+            # the history varies with cell and route, so every cell sees several of them (witnesses without the key: the longest)
+            hist = PORT_HISTORIES[-1]
+            if "history" in w.cell:
+                hist = PORT_HISTORIES[(int(w.cell["history"]) + ROUTES.index(w.route)) % len(PORT_HISTORIES)]
+            obs.port_history = []
+            for k, op in enumerate(hist):
+                before = w.open_ports()
+                exc = None
+                try:
+                    r = port.stopListening() if op == "stop" else port.startListening()
+                except Exception as e:      # noqa
+                    exc, r = e, None
+                fired = None
+                if op == "stop" and r is not None and hasattr(r, "addBoth"):
+                    box = []
+                    r.addBoth(lambda x, box=box: box.append(x) or None)
+                    w.step("stopped" if k == 0 else "port:stop#%d" % k)
+                    fired = bool(box)
+                else:
+                    w.step("stopped" if k == 0 else "port:%s#%d" % (op, k))
+                obs.port_history.append({"op": op, "before": before, "after": w.open_ports(), "raised": repr(exc) if exc else None,
+                                         "returned_deferred_fired": fired})
+            obs.open_after_stop = obs.port_history[0]["after"]
         # ---- quiescence
         w.step("quiesce-0")
         w.reactor.advance(3600)
@@ -1187,11 +1211,46 @@ def judge(w, rec, case):
             rec.count("hostname_not_judged_multi_client_stealth")
         if hport != cell["public_port"]:
             V("gethost-port-mismatch", kind, {"got": hport, "public_port": cell["public_port"], "bound": [lp.port for lp in bound]})
-        rec.count("stop_checked")
-        if getattr(obs, "stop_raised", None) is not None:
-            V("stoplistening-raised", kind, {"exc": repr(obs.stop_raised)})
-        if obs.open_after_stop:
-            V("stoplistening-left-listener-open", kind, {"open": obs.open_after_stop})
+        # ---- IListeningPort history: every stopListening() closes the local listener ------------------------------
+        mapped = None
+        for cs in obs.create_seen:
+            m = mapping_of(w, cs["line"])
+            if m:
+                mapped = m[0][1]
+        sig = []
+        for h in obs.port_history or []:
+            op = h["op"]
+            after_restart = "start" in sig
+            second = bool(sig) and sig[-1] == "stop"
+            sig.append(op)
+            hcls = kind + ("+stop-after-restart" if (op == "stop" and after_restart and not second) else
+                           "+repeated-stop" if (op == "stop" and second) else "")
+            if h["raised"]:
+                V("%slistening-raised" % op, hcls, {"exc": h["raised"], "history": sig})
+                continue
+            if op == "stop":
+                rec.count("stop_checked")
+                if h["before"]:
+                    rec.count("stops_of_an_open_listener_checked")
+                    if after_restart:
+                        rec.count("stops_after_restart_checked")
+                if h["returned_deferred_fired"] is False:
+                    rec.count("stop_deferred_pending_at_quiescence")
+                if h["after"]:
+                    V("stoplistening-left-listener-open", hcls, {"open": h["after"], "history": list(sig)})
+                    break
+            else:
+                rec.count("restarts_seen")
+                if not h["after"]:
+                    rec.count("restart_did_not_reopen_a_listener")
+                else:
+                    if any(not is_loopback(i) for (i, p) in h["after"]):
+                        V("non-loopback-listener", kind + "+restart", {"open": h["after"]})
+                    if len(h["after"]) == 1 and mapped is not None and tuple(h["after"][0]) == tuple(mapped):
+                        rec.count("restart_reopened_the_port_tor_forwards_to")
+                    else:
+                        rec.count("restart_reopened_another_port_than_tor_forwards_to")     # counted, not judged
+        rec.seen("port_histories", ",".join(sig))
         return bad, True
 
     # ---- failure / pending run ------------------------------------------------------------------------
@@ -1273,6 +1332,7 @@ def random_case(rnd):
     cell["first_port"] = rnd.randint(1024, 65000)
     cell["ndirs"] = rnd.randint(1, 4)
     cell["noise"] = rnd.random() < 0.5
+    cell["history"] = rnd.randrange(len(PORT_HISTORIES))
     faults = base_faults(route, cell) + line_faults(rnd.randint(2, 30 if route in LAZY else 4))
     case = {"cell": cell, "route": route, "fault": rnd.choice(faults)}
     if rnd.random() < 0.6:
